@@ -1,6 +1,6 @@
 """C13 - t2incon round trip.  Rules RECSEQ, TERM, LAYPREFIX, FMAP, NAMEFIX, CHUNK, PAIR."""
 import ast
-from ..core import AnalysisError, norm, dotted, call_name, walk_no_nested, const_str
+from ..core import AnalysisError, norm, dotted, call_name, walk_no_nested, const_str, is_self_attr
 from ..iomodel import layout_equiv
 from ..layout import load_table, fields_of, layout
 from ..fmap import reader_map, Sym
@@ -190,7 +190,43 @@ def rule_pair(run):
     pair_rule(run, ['t2incons'], set(['t2incon']), floor=4)
 
 
+def rule_flavour(run):
+    run.rule('FLAVOUR', 'read() learns the simulator flavour from the block records (a permeability triple makes the object TOUGHREACT): '
+             'every decision it takes from self.simulator - the layout of the timing record - is taken after the statement that '
+             'can set it, never from the flavour the object had before the file was read', floor=1)
+    rd = run.prog.func(C + 'read')
+    body = rd.node.body
+    def loads(st): return [x for x in ast.walk(st) if is_self_attr(x, 'simulator') and isinstance(x.ctx, ast.Load)]
+    def stores(st): return [x for x in ast.walk(st) if is_self_attr(x, 'simulator') and isinstance(x.ctx, ast.Store)]
+    setters = [i for i, st in enumerate(body) if stores(st)]
+    key = 't2incon.read :: flavour consulted only after the block records set it'
+    if not setters:
+        run.unknown(key, 'read() never assigns self.simulator', where=rd.where()); return
+    last = max(setters)
+    early = [x for st in body[:last] for x in loads(st)]
+    # inside the setting statement itself, a read that textually precedes the first store
+    first_store = min(x.lineno for x in stores(body[last]))
+    early += [x for x in loads(body[last]) if x.lineno < first_store]
+    late = [x for st in body[last + 1:] for x in loads(st)]
+    if early:
+        run.violated(key, 'self.simulator is read at line %d, before the loop over the block records (line %d) that sets it: the timing '
+                     'record of a TOUGHREACT file read into a fresh object is parsed with the TOUGH2 columns' % (early[0].lineno, body[last].lineno),
+                     where=rd.where(early[0]))
+    else:
+        run.ok(key, {'reads after': len(late)}, where=rd.where(body[last]))
+
+
+def rule_pure(run):
+    run.rule('PURE', 'a write_* method does not modify the model: no store through an un-copied attribute dictionary '
+             '(x.__dict__ / vars(x)), no attribute assignment on an element of one of the model\'s lists', floor=1)
+    from .purewrite import pure_rule
+    cls = run.prog.cls('t2incons', 't2incon')
+    pure_rule(run, [fi for name, fi in sorted(cls.methods.items()) if name.startswith('write')])
+
+
 def check(run):
+    run.guarded('FLAVOUR', rule_flavour)
+    run.guarded('PURE', rule_pure)
     run.guarded('LAYPREFIX', rule_layprefix)
     run.guarded('RECSEQ', rule_recseq_term)
     run.guarded('FMAP', rule_fmap)
